@@ -153,6 +153,42 @@ def run(ctx):
             viol.append(((p[0], p[1], -1, p[2], p[3], p[4], ""), ("VIOL-tokens-changed", "field spelling changed the token sequence")))
         else:
             tally["field-ok"] += 1
+    #    (c) the same through TEXT (lexer and parser in front of the dialect): the filter is written with the content inside a string literal (quotes doubled),
+    #        with and without blanks anywhere in the text; contents a decoder would rewrite (%27 %20 + &#39; \u0027 ...) must reach the SQL literal verbatim
+    TEXT_CONTENTS = hostile[:40] + ["%27", "%20", "a%27)%20or%20contains(s1,%27", "%27%20or%201%20eq%201%20or%20s1%20eq%20%27", "%25", "%41", "%2527", "a+b", "&#39;", "&apos;", "\\u0027", "\\x27",
+                                    "%c0%a7", "%EF%BC%87", "%", "%%", "%2", "%zz", "'%27'", "%27--", "%3B", "%2F*"]
+    TEXT_TEMPLATES = ["contains(s1,{q})", "s1 eq {q}", "startswith(s1,{q})", "contains(s1, {q}) and i1 eq 1", "concat(s1,{q}) eq {q}", "s1 in ({q},{q})", "not endswith(s1,{q})"]
+    tpairs = []
+    lx0, ps0 = None, None
+    def text_sql(d, a, text):
+        try:
+            node = impl.real_parse_ast(text)
+        except Exception as e:  # noqa
+            return "parse-raised " + type(e).__name__
+        return sc.real_sql(d, a, node)
+    for tmpl in TEXT_TEMPLATES:
+        ben_text = tmpl.replace("{q}", "'" + BENIGN + "'")
+        for d in sc.DIALECTS:
+            ben = text_sql(d, None, ben_text)
+            if not ben.startswith("ok "):
+                continue
+            for h in TEXT_CONTENTS:
+                if "\x00" in h:
+                    continue
+                txt = tmpl.replace("{q}", "'" + h.replace("'", "''") + "'")
+                tpairs.append((d, None, -2, h, txt, text_sql(d, None, txt), ben[3:]))
+    ttoks = lex_real([x for p in tpairs for x in ((p[5][3:] if p[5].startswith("ok ") else ""), p[6])])
+    for i, p in enumerate(tpairs):
+        ctx.evaluations += 1
+        if not p[5].startswith("ok "):
+            tally["text:raised"] += 1
+            viol.append((p, ("VIOL-outcome", f"the same filter text with a benign content was accepted, with this content: {p[5][:80]}"))); continue
+        v = judge_pair(ttoks[2 * i], ttoks[2 * i + 1], p[3])
+        tally["text:" + v[0]] += 1
+        if v[0] == "KF-escape":
+            kf_hits += 1
+        elif v[0].startswith("VIOL"):
+            viol.append((p, v))
     ctx.extra["judged"] = dict(tally)
     ctx.note(f"judge C07 on real output (Lean tokeniser): {dict(tally)}; {len(viol)} violations outside known findings")
     if viol:
